@@ -301,17 +301,16 @@ static RunResult exec_sched(const Plan &p)
 	if (st.signals_lost) res.probes["signal-with-no-waiter"] += st.signals_lost;
 	if (st.unjoined) res.fail("SCHED", "THREAD-LEAK", std::to_string(st.unjoined) + " threads neither exited nor joined when every destroy had returned");
 
-	// worker count: routines are recorded in order of first use: task_main, result_worker, thread_worker
+	// worker count (see pool_threads() in common.cc for how pool workers are told from result handlers)
 	{
-		int nr = 0; uint32_t worker_max = 0; bool have_worker = false;
-		int idx[8];
-		for (int i = 0; i < 8 && st.routine[i]; i++) if (st.routine[i] != (void *)task_main) idx[nr++] = i;
-		if (nr >= 2) { worker_max = st.routine_max_live[idx[1]]; have_worker = true; }
 		uint32_t limit = (uint32_t)((layer == "api" || shared) ? (pool_size > 0 ? pool_size : (layer == "api" ? 1 : 0)) : pool_size * (int)npooled);
-		if (have_worker && worker_max > limit)
-			res.fail("SCHED", "WORKER-COUNT", std::to_string(worker_max) + " worker threads alive at once, configured maximum " + std::to_string(limit));
-		if (have_worker && worker_max == limit && limit > 0) res.probes["pool-saturated"]++;
-		if (have_worker) res.probes["workers-created"] += st.routine_created[idx[1]];
+		uint32_t nhandlers = layer == "api" ? (uint32_t)ntask : (uint32_t)npooled;
+		PoolThreads pt = pool_threads(st);
+		if (!pt.named && st.threads_created > ntask) res.probes["start-routine-names-unknown"]++;
+		std::string wb = worker_bound_broken(st, limit, (uint32_t)ntask, nhandlers);
+		if (!wb.empty()) res.fail("SCHED", "WORKER-COUNT", wb);
+		if (pt.named && pt.workers_created > 0 && pt.worker_max == limit && limit > 0) res.probes["pool-saturated"]++;
+		if (pt.named && pt.workers_created > 0) res.probes["workers-created"] += pt.workers_created;
 	}
 
 	// ---- oracles over the recorded history
